@@ -49,8 +49,14 @@ SessWitness ==
              For2(<< [k |-> "def", x |-> "x", e |-> Lit(1)] >>),
              [k |-> "asg", x |-> "g1", e |-> Var("x")],
              [k |-> "printg"] >>)
-InitSessWit == /\ prog = SessWitness /\ res = Run(SessWitness) /\ sess = SessionRun(SessWitness)
-               /\ cut = 1..(NItems(SessWitness) - 1) /\ entry = "eval"
+\* pinned witness of the known finding F-C11-5: a chunk of statements of main that assigns a package variable
+\* and then declares a local of the same name (g0 = g0 + 4; g0 := g0 + 1): at the root level of a session the
+\* declaration replaces the symbol for the WHOLE chunk (the statements of main are one chunk here)
+SessWitness2 == CHOOSE w \in Witnesses : w.name = "main-local-named-like-a-package-variable"
+InitSessWit == \/ /\ prog = SessWitness /\ res = Run(SessWitness) /\ sess = SessionRun(SessWitness)
+                  /\ cut = 1..(NItems(SessWitness) - 1) /\ entry = "eval"
+               \/ /\ prog = SessWitness2 /\ res = Run(SessWitness2) /\ sess = SessionRun(SessWitness2)
+                  /\ cut = 1..NDecl /\ entry = "eval"
 SpecSessWit == InitSessWit /\ [][UNCHANGED svars]_svars
 
 (* Directed family: function literals created in a loop at the top level of main (so,  *)
